@@ -70,6 +70,8 @@ def generate(rng, tier):
     fmt = rng.choice(FORMATS)
     suffix = rng.choice(["", "", ".gz", ".bz2", ".xz"])
     case = {"fmt": fmt, "suffix": suffix, "opts": {}}
+    if rng.random() < 0.12:
+        case["subdir"] = rng.choice(["year=2024", "a=1/b=x", "v1.2.csv", "with space", "x=1"])
     n = rng.choice([1, 2, 3, 5, 9])
     enc = "utf-8"
     if fmt in ("csv", "json", "lod-json", "lod-csv"):
@@ -172,11 +174,19 @@ def execute(case):
     d = os.path.join(scratch, f"c12_{os.getpid()}")
     os.makedirs(d, exist_ok=True)
     ext = {"pickle": ".pkl", "npz": ".npz", "parquet": ".parquet", "csv": ".csv", "json": ".json", "lod-json": ".json", "lod-csv": ".csv", "lod-pickle": ".pkl"}[fmt]
-    path = os.path.join(d, "f" + ext + suffix)
     for f in os.listdir(d):
-        os.remove(os.path.join(d, f))
+        if os.path.isfile(os.path.join(d, f)): os.remove(os.path.join(d, f))
+    sub_ = case.get("subdir")
+    if sub_:
+        # the file lives in a directory whose name has a meaning for some readers (key=value, dots, spaces)
+        d = os.path.join(d, sub_)
+        os.makedirs(d, exist_ok=True)
+        for f in os.listdir(d):
+            os.remove(os.path.join(d, f))
+    path = os.path.join(d, "f" + ext + suffix)
     res = Result(nontrivial=True)
     res.cls(f"fmt:{fmt}", f"suffix:{suffix or 'plain'}")
+    if case.get("subdir"): res.cls("path:meaningful-directory-name")
     if case.get("big"): res.cls("big-file")
     for k, v in opts.items():
         res.cls(f"opt:{k}")
